@@ -185,6 +185,10 @@ section
 variable {α : Type} [Add α] [Sub α] [Mul α] [Div α] [Neg α] [Zero α] [One α] [LT α] [DecidableLT α]
   [BEq α] [OfNat α 2]
 
+/-- `PersLandscapeExact.__mul__` (exact.py:199-205): `[(a, other * b) for a, b in depth_list]` -/
+def scaleCps (c : α) (cps : List (List (α × α))) : List (List (α × α)) :=
+  cps.map fun l => l.map fun pt => (pt.1, c * pt.2)
+
 /-- `PersLandscapeApprox.values_to_pairs` given the grid `np.linspace(start, stop, num_steps)` -/
 def valuesToPairs (grid : List α) (values : List (List α)) : List (List (α × α)) :=
   values.map fun vals => grid.zip vals
